@@ -22,6 +22,13 @@ Parts (``task['part']``):
  h  histories over {set parameters A, set parameters B, forecast row 0/1, utility piece row 0, validation row 0}
     up to a depth bound, every step compared with the reference model holding the *current* parameters
     (a per-observation cache must not leak values of the previous parameters).
+ d  data frames: which row is observation i.  ``Mdcev.forecast`` on tables (sequences of 1-4 alphabet rows) whose
+    pandas index carries an alphabet of labels -- default range, permutations (left behind by the real
+    ``DataFrame.sort_values``), offsets and gaps (left behind by the real ``Database.remove``), duplicates
+    (``pandas.concat``), far / negative integers, strings, digit strings, floats -- with *different* draws for every
+    observation: result i, draw j must be the reference optimum for the row at position i and draw j of
+    epsilons[i].  The rows of ``Database.mdcev_row_split`` (all rows / an explicit reversed range) given to
+    ``forecast_bisection_one_draw`` must be the rows at those positions.
 
 The reference (class ``Ref``) never imports biogeme.
 """
@@ -38,11 +45,13 @@ LEVEL = 'exploration'
 TECHNIQUE = ('bounded exhaustive enumeration of MDCEV consumer problems (variant x outside good x prices x scale x '
              'parameter set x row x budget x all 27 error draws) x an alphabet of integer labelings, executed on the '
              'real forecasting code and compared with a plain-Python reference solver / closed forms; exhaustive '
-             'operation histories for the per-observation cache')
+             'operation histories for the per-observation cache; an alphabet of data frames (row sequences x index '
+             'labels x the operation that produced them) for the pairing observation <-> row <-> draws')
 RULE = ('one case per (problem, labeling) forecast, per (good, consumption, epsilon) / (good, dual, epsilon) piece '
-        'comparison, per history step. A forecast case is non-trivial when the library returned a consumption vector '
+        'comparison, per history step, per (data frame, observation, draw) of the data-frame sweep. A forecast case is non-trivial when the library returned a consumption vector '
         'that was compared with the reference optimum; corner solutions (some good at zero) are counted separately. '
-        'distinct = distinct (part, configuration, parameter set, row, budget, draw, labeling | grid point | history) keys.')
+        'distinct = distinct (part, configuration, parameter set, row, budget, draw, labeling | grid point | history | '
+        'data frame, observation, draw) keys.')
 ASSUMPTIONS = [
     'continuous domains are covered on finite grids only (8 value alphabets selected by VERIF_SEED, budgets, '
     '{-1,0,1}^3 draws, 3 goods); utilities are strictly concave (0 < alpha < 1, gamma > 0, prices > 0) so the optimum '
@@ -51,6 +60,8 @@ ASSUMPTIONS = [
     'Mdcev.key_to_index (the library documents no other convention)',
     'parameters are changed only through the library API (the estimation_results setter, given an object with '
     'get_beta_values() as in the repository tests); prices / gamma / alpha / scale are data-independent expressions',
+    'observation i of a Database is the i-th row of its data frame by position (the order of the table), whatever '
+    'labels the pandas index carries, and epsilons[i] are the draws of that observation (docstring of Mdcev.forecast)',
     'the engine (cythonbiogeme) is trusted for the value and gradient of the symbolic utility expression',
 ]
 ANCHOR_FILES = ['src/biogeme/mdcev/mdcev.py', 'src/biogeme/mdcev/gamma_profile.py',
